@@ -113,7 +113,7 @@ fn run(
     sched: &mut Tape,
 ) -> Result<ExecOutcome, HarnessError> {
     let mut o = ExecOpts::new(cfg);
-    o.event_cap = 400 * cx.model.steps + 200_000;
+    o.event_cap = cx.model.event_cap();
     let t = std::mem::replace(sched, Tape::replaying(vec![]));
     let e = exec(w, o, t);
     *sched = e.sched.clone();
